@@ -50,7 +50,7 @@ static void applyOpt(GMGPolar& g, const std::string& name, int val)
     else if (name == "fmg")
         g.FMG(val != 0);
     else if (name == "L")
-        g.maxLevels(val);
+        g.maxLevels(val == 0 ? -1 : val); // 0 = automatic
     else if (name == "take")
         g.stencilDistributionMethod(val ? StencilDistributionMethod::CPU_TAKE : StencilDistributionMethod::CPU_GIVE);
     else if (name == "caches") {
@@ -80,6 +80,15 @@ static void applyOpt(GMGPolar& g, const std::string& name, int val)
     }
     else
         throw std::runtime_error("driver: unknown option " + name);
+}
+
+// the options as the getters report them, in the abstract encoding of the case files: setup() and solve() must not change them
+static void optsEvent(GMGPolar& g)
+{
+    event("Opts", "\"ext\":%d,\"fmg\":%d,\"L\":%d,\"take\":%d,\"caches\":%d,\"maxIter\":%d,\"absOn\":%d,\"relOn\":%d,\"grid\":%d",
+          (int)g.extrapolation(), (int)g.FMG(), g.maxLevels() <= 0 ? 0 : g.maxLevels(), (int)(g.stencilDistributionMethod() == StencilDistributionMethod::CPU_TAKE),
+          (int)(g.cacheDensityProfileCoefficients() && g.cacheDomainGeometry()), g.maxIterations(), (int)(g.absoluteTolerance() >= 0.0),
+          (int)(g.relativeTolerance() >= 0.0), g.divideBy2());
 }
 
 static std::unique_ptr<GMGPolar> construct(const mj::Value& c)
@@ -196,6 +205,7 @@ int main(int argc, char** argv)
                 catch (const std::exception& e) {
                     event("SetupThrew", "\"what\":\"%s\"", mj::escape(e.what()).substr(0, 80).c_str());
                 }
+                optsEvent(*G);
             }
             else if (a == "Solve") {
                 int builtExt = (int)G->extrapolation();
@@ -204,8 +214,10 @@ int main(int argc, char** argv)
                 }
                 catch (const std::exception& e) {
                     event("SolveThrew", "\"what\":\"%s\"", mj::escape(e.what()).substr(0, 80).c_str());
+                    optsEvent(*G);
                     continue;
                 }
+                optsEvent(*G);
                 auto e2 = G->exactErrorWeightedEuclidean();
                 auto ei = G->exactErrorInfinity();
                 event("Get", "\"nIter\":%d,\"hasErr\":%d,\"rho\":%s,\"err2\":%s", G->numberOfIterations(), (int)e2.has_value(),
